@@ -1,5 +1,5 @@
 (* C15 - CNF encodings (verified checker) and exact enumeration of minimal correction subsets. *)
-From InfOCF Require Import Core Form Mcs Clause Cnf ThmCnf.
+From InfOCF Require Import Core Form Mcs Clause Cnf ThmCnf ThmRS.
 
 (* (a) the checker evaluated on every CNF the implementation produces is sound and complete for faithfulness:
    for every complete assignment w of the atoms, the clause set is satisfiable together with w iff w satisfies
@@ -33,6 +33,19 @@ Print Assumptions C15_reference_family_is_loop_result.
 Theorem C15_nothing_iff_hard_unsat : forall nv hard g, mcs_clause nv hard g = [] <-> models nv hard = [].
 Proof. exact mcs_empty_iff. Qed.
 Print Assumptions C15_nothing_iff_hard_unsat.
+
+(* remove_supersets (stable sort by cardinality, keep what has no kept subset) = the inclusion-minimal members, each once;
+   so the list the enumeration returns has exactly the members of the reference family *)
+Theorem C15_remove_supersets_is_minimal : forall l x, In x (remove_supersets l) <-> In x (minimal l).
+Proof. exact remove_supersets_minimal. Qed.
+Print Assumptions C15_remove_supersets_is_minimal.
+Theorem C15_each_set_once : forall l, NoDup (remove_supersets l).
+Proof. exact remove_supersets_each_once. Qed.
+Print Assumptions C15_each_set_once.
+Theorem C15_enumeration_returns_reference_family : forall nv hard g res, mcs_loop nv hard g = Some res ->
+  forall x, In x (remove_supersets res) <-> In x (mcs_clause nv hard g).
+Proof. intros nv hard g res H x. rewrite remove_supersets_minimal. apply mcs_loop_correct; auto. Qed.
+Print Assumptions C15_enumeration_returns_reference_family.
 
 (* (b) level 2: get_violated_conditional (cost guard + early exit) returns exactly the violated keys whenever the
    reported cost is at least the number of violated scanned clauses *)
